@@ -74,3 +74,7 @@ PENDING.pop("C14", None)
 _p("C13", "other",
    "Static necessary conditions of 'used-qubit analysis is exact; overlapping parallel branches are rejected': exhaustiveness of the used-qubit visitor family over nodes that contain statements or qubits (its default is silent) and visiting of every child container; the collision raise depends on the disjoint flag and the intersection, and the emulator's walker passes a flag that follows block.parallel; idle/busy definition table and expansion of the `all` marker; merge by set union with a symmetric test; register sizes that may be let constants are converted before integer use; macro-call arguments are resolved in the caller's scope before entering the callee's. Does not decide exactness of the index sets for all alias chains (arithmetic).")
 PENDING.pop("C13", None)
+
+_p("C06", "other",
+   "Static necessary conditions of 'every qubit reference resolves to the right physical qubit': taint analysis showing that no consumer (emulator, pyGSTi circuit builder, used-qubit analysis, alias fill-in, result layer) lets a raw alias_index reach arithmetic or an external constructor -- the physical index must come from resolve_qubit; every attribute read on a receiver whose type is known from the visitor convention / constructors / isinstance exists on that type (323-odd typed reads); slice arithmetic is computed only in core/register.py. Does not decide the affine composition start+i*step itself.")
+PENDING.pop("C06", None)
